@@ -2,6 +2,7 @@
 // Plain lines: hand-written specification. `//@` directives: real source text, re-extracted every run.
 //@ rule R10
 //@ rule R11
+//@ rule R17
 #![allow(unused_imports, unused_variables, dead_code, non_snake_case)]
 use vstd::prelude::*;
 use vstd::std_specs::convert::*;
@@ -12,6 +13,9 @@ verus! {
 //@ include inc/bytes_order.rs
 
 //@ include inc/c11_prelude.rs
+
+/// struct stand-in (field subset): `plugin` is passed through opaquely, `db` is the RocksDB handle (point reads)
+pub struct Impl { pub plugin: Plugin, pub db: DbHandle }
 
 // ---------------------------------------------------------------- functions under contract
 //@ impl crates/storage/src/kv_database/rocksdb.rs :: impl Impl
@@ -312,6 +316,29 @@ pub proof fn lemma_ops_cost_take(ops: Seq<Operation>, i: int)
             ty: C::STABLE_TYPE_ID, kind: ColumnKind::KeyOfSet, key: member_key::<C>(key, value) })
 //@ end
 
+
+
+// ---------------------------------------------------------------- point read: the same column, the same key bytes as the writers
+/// interface stand-in for the RocksDB handle (`DBWithThreadMode`): a point read reports the committed content
+#[verifier::external_body]
+pub struct DbHandle { _p: u8 }
+impl DbHandle {
+    #[verifier::external_body]
+    pub fn get_cf<K: AsBytes>(&self, cf: &Handle, key: K) -> (r: Result<Option<Vec<u8>>, std::fmt::Error>)
+        ensures r matches Ok(o) && (match o { Some(b) => stored(cf.ty(), cf.kind(), key.seq()) == Some(b@), None => stored(cf.ty(), cf.kind(), key.seq()) is None })
+    { unimplemented!() }
+}
+//@ struct crates/storage/src/kv_database/rocksdb.rs :: RocksDB
+//@ impl crates/storage/src/kv_database/rocksdb.rs :: impl KvDatabase for RocksDB
+//@ member get_wide_column
+//@ ret r
+//@ sig
+        ensures
+            match stored(W::STABLE_TYPE_ID, ColumnKind::WideColumn, wide_key::<W, C>(key)) {
+                None => r is None,
+                Some(b) => r matches Some(w) && (forall|v: C| b == #[trigger] v.bytes() ==> w.bytes() == v.bytes()),
+            }
+//@ end
 
 } // verus!
 fn main() {}
